@@ -92,7 +92,7 @@ S0 == BaseOf(bid)
 TypeOK == /\ bid \in Bases /\ woff \in WriteSet /\ wval \in Values \cup { NoVal }
           /\ Chosen => LET w == Write(S0, woff, wval) IN
                 /\ w.out \in { "ok", "assert", "oob" }
-                /\ DOMAIN w.s = Keys
+                /\ DOMAIN w.s \subseteq DOMAIN S0 \cup { CellK(woff) } /\ DOMAIN S0 \subseteq DOMAIN w.s
                 /\ w.out = "oob" <=> (woff \in WindowOffs /\ S0[ActiveK] >= 8)
                 /\ Read(w.s, woff) \in 0..65535
 ReadBack           == Chosen => ReadBackAt(S0, woff, wval)
@@ -118,7 +118,7 @@ ASSUME /\ Read(Fresh, \h01A) = \hC902 /\ Read(Fresh, \h114) = \h1E20 /\ Read(Fre
        /\ Read(Fresh, \h2C2) = \h10   /\ Read(Fresh, \h342) = \h10
        /\ \A o \in Watch \ { \h01A, \h114, \h116, \h11E, \h18C, \h2C2, \h342 } : Read(Fresh, o) = 0
 \* the bases are what their programs intend
-ASSUME /\ \A i \in 1..7 : DOMAIN BaseOf(i) = Keys /\ \A k \in Keys : BaseOf(i)[k] \in 0..65535
+ASSUME /\ \A i \in 1..7 : Keys \subseteq DOMAIN BaseOf(i) /\ \A k \in DOMAIN BaseOf(i) : BaseOf(i)[k] \in 0..65535
        /\ Base2[ActiveK] = 3 /\ Base2[TK(0, "cnt_lo")] = 1 /\ Base2[TK(0, "ctr_low")] = 1 /\ Base2[TK(1, "cnt_lo")] = 2
        /\ Base2[K("bt", 0, "qlen")] = 3 /\ Base2[FC("ready0")] = 1 /\ Base2[FC("signal")] = 1
        /\ Base3[ActiveK] = 7 /\ Base3[TK(1, "cnt_hi")] = 1 /\ Base3[TK(0, "cnt_lo")] = 0
